@@ -9,6 +9,24 @@ CHECKS = {
  "C01": ("exploration", "runtime monitor: byte-identity oracle over generated executions (encoding_rs whole-buffer oracle for captured text)",
          "Runs the real rewriter on millions of generated (input, encoding, observer set, strict flag, write schedule) executions and compares sink bytes with the input; every 40th document is run under all 1-cut schedules. Held on what was observed, not a proof.",
          "Trusts encoding_rs' whole-buffer decode/encode as the reference for captured text and lol-html's text source locations (checked by C14) for text-node boundaries.", "§5 C01"),
+ "C02": ("exploration", "runtime monitor: relational oracle between write schedules (single write vs all 1-cuts / all 2-cuts / byte-wise / random cuts / rewrite_str)",
+         "For each generated (input, encoding, handler set incl. offset-keyed mutating scripts) the single-write run is compared with every 1-cut schedule (inputs <= 300 bytes), every 2-cut schedule (<= 40 bytes), byte-wise and random schedules and rewrite_str: output bytes and the normalised event sequence must coincide; text-node protocol (exactly one last chunk) checked on every run. Exhaustive over cut positions for the documents generated, sampling over documents.",
+         "Relational: a defect that is identical under all schedules is invisible here (covered by C03/C04/C05/C07). Locations are excluded (C14).", "§5 C02"),
+ "C06": ("exploration", "runtime monitor: relational oracle between handler configurations H and H+O on the same input and schedule; hook events count scanner<->lexer switches",
+         "Same input and schedule under H and under H plus extra observers (registered before or after): events delivered to H's handlers and sink bytes must be identical. Hook events prove the two runs really took different scan/lex paths.",
+         "One accepted artefact, recognised exactly: strict-mode Ambiguity-vs-Ok when the input ends inside the offending tag (DESIGN.md §6).", "§5 C06"),
+ "C09": ("exploration", "runtime monitor: relational oracle (fresh rewriter given the same prefix) + absolute bounds on held bytes from ground-truth token spans",
+         "After every write of a schedule (every prefix for inputs <= 300 bytes) bytes_out is compared with a fresh rewriter that got the same prefix in one write; with no handlers the held bytes must be an unfinished tag through its name or <= 16 bytes of look-ahead; on generated documents with known token spans nothing is held at construct boundaries and never more than the unfinished token.",
+         "Absolute 'through its name' bound asserted in the HTML namespace only (DESIGN.md §6).", "§5 C09"),
+ "C10": ("fault_enumeration", "runtime monitor: exhaustive memory-limit sweep with accounting hook (usage <= M), pending-bytes bound, monotonicity and determinism oracles",
+         "For growth-shaped inputs x handler sets x schedules x preallocation sizes the limit M is swept over every value from 0 beyond the first success (geometric for large inputs): every run is checked for accounted usage <= M (hook) and pending <= M after each successful call and for MemoryLimitExceeded as the only failure; every sweep for monotone success with identical output and for a minimum charge per open element.",
+         "Only the accounting limit is exercised; real allocation failure aborts and cannot be injected. prealloc > limit only in the release flavour.", "§5 C10"),
+ "C11": ("fault_enumeration", "runtime monitor: failure injection at every handler invocation index and memory-limit sweeps; conservation / exactly-once checker over the recorded history with unique ids",
+         "One run per failure index 1..N (all for N <= 40 quick / 120 thorough) and per memory limit value, under all flag combinations: sink ++ unwritten input (ids stripped) must equal the input, inserted ids must be a prefix of the complete run's ids followed by the bail-out markers, bail-out handlers exactly once in order, nothing flushed with the flag off or on ParsingAmbiguity. Hook events show which of the four failure sites fired.",
+         "UTF-8 inputs when text handlers are present; removal configurations not generated (documented exception); one known finding (decoder-held bytes) matched by an exact bug model.", "§5 C11"),
+ "C12": ("exploration", "runtime monitor: online automaton over the ordered log of sink calls and API results, over generated call histories with injected failures",
+         "Every generated history (write*; end with empty writes / empty documents, observers and mutating scripts incl. empty strings, failures by handler index or memory limit, graceful flags, meta charset) is run through the sink automaton; use-after-error is probed; without graceful flags the emitted bytes must be a prefix of the complete run's output.",
+         "The automaton encodes the documented protocol only.", "§5 C12"),
 }
 
 NOT_YET = {
